@@ -280,11 +280,34 @@ theorem C12_iter_walks (v : Bits) (fromEnd : Bool) (ops : List ItOp) :
       ∀ o ∈ l, ∃ r : Nat, o.pos = (r : Int) - 1 ∧ r ≤ v.length ∧ (0 < r → v.getD (r - 1) false = true)) :=
   ⟨fwdWalk_ok v fromEnd ops, revWalk_ok v fromEnd ops⟩
 
-/-- post-increment / post-decrement: when the move returns `q`, the returned copy stands on the
+/-- (definitional lemma: unfolds the model's `postOp` for an arbitrary `move`; NOT a clause of the property on its
+    own - that the post forms of the iterator classes behave so is the faithfulness of the model, tied by the
+    differential run; the statement about whole walks is `C12_iter_post_walk`.)
+    post-increment / post-decrement: when the move returns `q`, the returned copy stands on the
     old position and the iterator on `q` — the same position the pre form reaches. -/
 theorem C12_iter_post (move : Int → Res Int) (p q : Int) (h : move p = .ok q) :
     postOp move p = .ok (p, q) := by
   unfold postOp; rw [h]
+
+/-- (post forms inside any walk) For every walk that returns normally - any mixture of `++it`, `--it`, `it++`,
+    `it--` from any start position, forward or reverse iterator class (`inc` / `dec` = the two moves of the
+    class) -: replacing every post form by its pre form gives the same iterator position after every single
+    operation, and the copy a post form returns stands on the position the iterator had before that operation
+    (the start position for the first one, the position after the previous operation otherwise); pre forms
+    return no copy.  With `C12_iter_walks` (every such walk from begin/end/rbegin/rend returns normally). -/
+theorem C12_iter_post_walk (inc dec : Int → Res Int) (ops : List ItOp) (p : Int) (l : List ItOut)
+    (h : itWalk inc dec p ops = .ok l) :
+    itWalk inc dec p (ops.map ItOp.pre) = .ok (l.map fun o => ⟨none, o.pos⟩)
+    ∧ l.map (·.copy) = (ops.zip (startsOf p l)).map (fun x => if x.1.isPost then some x.2 else none) :=
+  itWalk_post inc dec ops p l h
+
+/-- `C12_iter_post_walk` on the bitset 0b0110 (set positions 1, 2), forward iterator from `begin()`:
+    `it++`, `it++`, `--it` - the copies stand on 1 and 2, the positions are those of `++it`, `++it`, `--it` -/
+example :
+    ∃ p l, beginIt [false, true, true, false] = .ok p
+      ∧ itWalk (forward [false, true, true, false]) (fwdDec [false, true, true, false]) p [.postInc, .postInc, .dec] = .ok l
+      ∧ l.map (·.copy) = [some 1, some 2, none] ∧ l.map (·.pos) = [2, 4, 2] :=
+  ⟨1, [⟨some 1, 2⟩, ⟨some 2, 4⟩, ⟨none, 2⟩], rfl, rfl, rfl, rfl⟩
 
 /-! ### `to_string( zero, one)` and the `std::bitset< N>` conversions -/
 
